@@ -16,10 +16,11 @@ import Driver.Scope
 import Driver.Rel
 import Driver.StdProg
 import Driver.Clone
+import Driver.Roact
 open Driver Selene
 
 def allHandlers : List (String × Handler) :=
-  Driver.C04A.handlers ++ Driver.C04B.handlers ++ Driver.C05.handlers ++ Driver.C06.handlers ++ Driver.C08.handlers ++ Driver.C11.handlers ++ Driver.C12.handlers ++ Driver.C15.handlers ++ Driver.C16.handlers ++ Driver.C17.handlers ++ Driver.C18.handlers ++ Driver.C19.handlers ++ Driver.C20.handlers ++ Driver.Scope.handlers ++ Driver.Rel.handlers ++ Driver.StdProg.handlers ++ Driver.Clone.handlers
+  Driver.C04A.handlers ++ Driver.C04B.handlers ++ Driver.C05.handlers ++ Driver.C06.handlers ++ Driver.C08.handlers ++ Driver.C11.handlers ++ Driver.C12.handlers ++ Driver.C15.handlers ++ Driver.C16.handlers ++ Driver.C17.handlers ++ Driver.C18.handlers ++ Driver.C19.handlers ++ Driver.C20.handlers ++ Driver.Scope.handlers ++ Driver.Rel.handlers ++ Driver.StdProg.handlers ++ Driver.Clone.handlers ++ Driver.Roact.handlers
 
 def handleLine (line : String) : String :=
   match line.splitOn "\t" with
